@@ -1020,7 +1020,8 @@ impl<'a> Printer<'a> {
                     }
                 }
                 let atom = Self::expr_prec(rhs) > POSTFIX_PREC || matches!(rhs.k, EK::Measure(_));
-                if self.lay.paren_assign_rhs && !atom {
+                // (the recorded finding is about plain `=` only: `x = a + b;`; compound assignments take any right-hand side)
+                if self.lay.paren_assign_rhs && !atom && op.is_none() {
                     self.tok("(");
                     self.expr(rhs, 0);
                     self.tok(")");
